@@ -22,11 +22,13 @@ def make_ws(ws, r, workers=None):
         names = ["w%d" % i for i in range(8)]
         deps = {n: [] for n in names}
     sleeps = {n: r.choice(["0.3", "0.6", "1.0"]) for n in names}
+    # in every second case ALL target shells ignore SIGTERM: "terminates the running target shells" must not depend on their cooperation
+    all_ignore = r.chance(1, 2)
     targets = []
     for n in names:
         cmd = "\n".join(([
             # half of the shells ignore SIGTERM: "terminates the running target shells" must not depend on their cooperation
-            "trap '' TERM"] if r.chance(1, 2) else []) + [
+            "trap '' TERM"] if all_ignore else []) + [
             'echo "S %s $(date +%%s.%%N) $$" >> "$VTRACE"' % n,
             "sleep %s" % sleeps[n],
             "{ echo %s; %s } > %s.out" % (n, " ".join("cat %s.out;" % d for d in deps[n]), n),
@@ -109,6 +111,12 @@ def one_case(args):
         alive = [e[3] for e in ev if e[0] == "S" and e[1] not in ended and os.path.exists("/proc/%d" % e[3])]
         if alive:
             res["problems"].append("target shell(s) %s still alive after grog exited" % alive)
+        # a shell that outlived grog and finished its script: its E line is stamped after grog's exit
+        if rc != "hang":
+            outlived = [(e[1], round(e[2] - texit, 2)) for e in ev if e[0] == "E" and e[2] > texit + 0.05]
+            if outlived:
+                res["problems"].append("target shell(s) kept running after grog exited and finished their commands %s s later: %s" % (
+                    outlived[0][1], [n for n, _ in outlived]))
         nres = count_results(root)
         if nres > len(ended):
             res["problems"].append("%d cached results but only %d targets finished (an interrupted target was cached)" % (nres, len(ended)))
